@@ -15,6 +15,7 @@ type Literal struct {
 	Lead    string `json:"lead"`    // text between the opening quote and "# @genqlient" (whitespace/newlines)
 	Form    int    `json:"form"`    // expression context (see goForms)
 	SameRow bool   `json:"samerow"` // placed on the same source line as the previous literal
+	Tail    string `json:"tail,omitempty"` // blanks after "# @genqlient" on the marker line
 }
 
 type File struct {
@@ -56,7 +57,8 @@ func RandomLayout(r *core.Rng, n int, allowGo bool) *Layout {
 			for len(b) > 0 {
 				k := 1 + r.Intn(len(b))
 				lit := &Literal{Defs: b[:k], Raw: r.Chance(0.75), Form: r.Intn(len(goForms)),
-					Lead: []string{"", "", "\n", "\n\n", " ", "\n  "}[r.Intn(6)]}
+					Lead: []string{"", "", "\n", "\n\n", " ", "\n  "}[r.Intn(6)],
+					Tail: []string{"", "", "", " ", "\t", "  "}[r.Intn(6)]}
 				f.Lits = append(f.Lits, lit)
 				b = b[k:]
 			}
@@ -96,7 +98,7 @@ func LitText(l *Literal, defs []*Def) string { return litText(l, defs) }
 
 func litText(l *Literal, defs []*Def) string {
 	var sb strings.Builder
-	sb.WriteString(l.Lead + "# @genqlient\n")
+	sb.WriteString(l.Lead + "# @genqlient" + l.Tail + "\n")
 	for _, d := range l.Defs {
 		sb.WriteString(defs[d].Text)
 		sb.WriteString("\n")
